@@ -51,10 +51,12 @@ type c12Spec struct {
 	Arg    int    `json:"arg,omitempty"`
 	Sub    int64  `json:"sub,omitempty"`
 	Hdr    int    `json:"hdr,omitempty"`
+	// Env: what else the query carries besides its question (zz_verif_c12_handler_test.go); "" = what Hdr says
+	Env string `json:"env,omitempty"`
 }
 
 func (sp *c12Spec) key() string {
-	return fmt.Sprintf("%s/%q/%s/%s/%s/%s/%d/%d/%q/%d/%d/%d", sp.Kind, string(sp.Cmd), sp.Body, sp.Uid, sp.Sfx, sp.From, sp.Qtype, sp.Qclass, sp.Text, sp.Arg, sp.Sub, sp.Hdr)
+	return fmt.Sprintf("%s/%q/%s/%s/%s/%s/%d/%d/%q/%d/%d/%d/%s", sp.Kind, string(sp.Cmd), sp.Body, sp.Uid, sp.Sfx, sp.From, sp.Qtype, sp.Qclass, sp.Text, sp.Arg, sp.Sub, sp.Hdr, sp.Env)
 }
 
 // c12Esc renders raw labels as a presentation-format name miekg's packer accepts.
@@ -367,6 +369,9 @@ func (fx *c12Fx) build(sp *c12Spec) *mdns.Msg {
 	case 4:
 		m.SetEdns0(512, false)
 		m.Extra = append(m.Extra, &mdns.TXT{Hdr: mdns.RR_Header{Name: "x.", Rrtype: mdns.TypeTXT, Class: mdns.ClassINET}, Txt: []string{"extra"}})
+	}
+	if sp.Env != "" {
+		c12ApplyEnv(m, sp.Env, rng)
 	}
 	return m
 }
